@@ -5,4 +5,4 @@ CHECK_DEADLOCK FALSE
 CONSTANTS
   N = 3
   PartialUpTo = 1
-  Schedules = {"each", "batch", "glue_next", "glue_prev"}
+  Schedules = {"each", "batch", "glue_next"}
